@@ -1,6 +1,7 @@
 package main
 
 import (
+	"go/types"
 	"go/token"
 	"strings"
 
@@ -43,7 +44,7 @@ func runC05(c *Ctx) {
 	prev := func(fn *Fn) P {
 		return ThroughPhi(Or(Call("cid.Cid).Bytes", Op("global", "go-cid.Undef")), Call("cid.Cid).Bytes", Field("Cid", Field("PreviousID", ad(fn))))))
 	}
-	c05Payload(c, adPay, []wantWrite{
+	c05Payload(c, adPay, func(adPay *Fn) []wantWrite { return []wantWrite{
 		{"previous link", "Write", prev(adPay), 0},
 		{"entries link", "Write", Call("cid.Cid).Bytes", Field("Cid", Field("Entries", ad(adPay)))), 0},
 		{"provider", "WriteString", Field("Provider", ad(adPay)), 0},
@@ -51,9 +52,8 @@ func runC05(c *Ctx) {
 		{"metadata", "Write", Field("Metadata", ad(adPay)), 0},
 		{"removal flag", "WriteByte", Const("1"), 1},
 		{"removal flag", "WriteByte", Const("0"), 1},
-	}, "IsRm")
-	p := Op("param", epPay.SSA.Params[1].Name())
-	c05Payload(c, epPay, []wantWrite{
+	}}, "IsRm")
+	c05Payload(c, epPay, func(epPay *Fn) []wantWrite { p := Op("param", epPay.SSA.Params[1].Name()); return []wantWrite{
 		{"previous link", "Write", prev(epPay), 0},
 		{"entries link", "Write", Call("cid.Cid).Bytes", Field("Cid", Field("Entries", ad(epPay)))), 0},
 		{"provider", "WriteString", Field("Provider", ad(epPay)), 0},
@@ -63,7 +63,7 @@ func runC05(c *Ctx) {
 		{"entry metadata", "Write", Field("Metadata", p), 0},
 		{"override flag", "WriteByte", Const("1"), 1},
 		{"override flag", "WriteByte", Const("0"), 1},
-	}, "Override")
+	}}, "Override")
 	c.Floor("C05.S1-payload-coverage", 18)
 
 	// ---- S2 same payload function on both sides -----------------------------------------------
@@ -90,6 +90,15 @@ func runC05(c *Ctx) {
 				}
 				// first argument is the receiver advertisement
 				recvOK := cs.X.Args[0].Op == "param" && cs.X.Args[0].V == ssa.Value(topFunc(cs.Fn).Params[0])
+				if col, k := c05Collector(c, pf); col != nil && k < len(cs.X.Args) {
+					// collecting the signed fields and hashing them are two functions: what is hashed is what the
+					// collector returned for the method's own advertisement
+					recvOK = false
+					if h, _ := helperCall(cs.X.Args[k]); h != nil && h.Callee == col.SSA && len(h.Args) > 0 {
+						a0 := strip(h.Args[0])
+						recvOK = a0 != nil && a0.Op == "param" && a0.V == ssa.Value(topFunc(cs.Fn).Params[0])
+					}
+				}
 				c.Check(recvOK, "C05.S2-same-payload-function", c.short(topFunc(cs.Fn).String())+" → "+pf.Name, cs.In.Pos(), "payload computed over the method's own advertisement", "payload computed over something other than the advertisement being signed/verified")
 			}
 		}
@@ -267,7 +276,41 @@ func runC05(c *Ctx) {
 	c05Records(c, verify, adPay.SSA, epPay.SSA)
 }
 
-func c05Payload(c *Ctx, fn *Fn, want []wantWrite, flag string) {
+// c05Collector: when the payload function only hashes bytes it is handed (its hashed data is its parameter number
+// k), the unexported function of the package whose result every caller passes there — the one that collects the
+// signed fields. nil when the payload function assembles the bytes itself.
+func c05Collector(c *Ctx, fn *Fn) (*Fn, int) {
+	for _, cs := range c.Calls(fn.SSA, Or(Call("go-multihash.Sum"), Call("go-multihash.Encode"))) {
+		d := strip(cs.X.Args[0])
+		prm, ok := d.V.(*ssa.Parameter)
+		if d.Op != "param" || !ok {
+			return nil, 0
+		}
+		k := -1
+		for i, p := range fn.SSA.Params {
+			if p == prm {
+				k = i
+			}
+		}
+		vals, _ := c.ActualsAt(d)
+		var col *ssa.Function
+		for _, v := range vals {
+			h, _ := helperCall(v)
+			if h == nil || h.Callee == nil || (col != nil && h.Callee != col) {
+				return nil, 0
+			}
+			col = h.Callee
+		}
+		if col == nil || k < 0 {
+			return nil, 0
+		}
+		obj, _ := col.Object().(*types.Func)
+		return c.fnOf(obj), k
+	}
+	return nil, 0
+}
+
+func c05Payload(c *Ctx, fn *Fn, mkWant func(*Fn) []wantWrite, flag string) {
 	// the hashed bytes: argument of multihash.Sum / Encode in the returns
 	var data *X
 	n := 0
@@ -287,7 +330,20 @@ func c05Payload(c *Ctx, fn *Fn, want []wantWrite, flag string) {
 		c.Unk("C05.S1-payload-coverage", fn.Name+" › hashed bytes", fn.SSA.Pos(), "no multihash.Sum/Encode of the payload buffer")
 		return
 	}
-	ws, why := c.payloadWrites(fn.SSA, data)
+	want := mkWant(fn)
+	var ws []BufWrite
+	why := ""
+	if col, _ := c05Collector(c, fn); col != nil {
+		// the signed fields are collected by a function of its own: its return value is what gets hashed
+		want = mkWant(col)
+		for _, b := range col.SSA.Blocks {
+			if ret, ok := b.Instrs[len(b.Instrs)-1].(*ssa.Return); ok && len(ret.Results) >= 1 && ws == nil {
+				ws, why = c.payloadWrites(col.SSA, c.RetX(ret, 0))
+			}
+		}
+	} else {
+		ws, why = c.payloadWrites(fn.SSA, data)
+	}
 	if ws == nil {
 		c.Unk("C05.S1-payload-coverage", fn.Name+" › payload buffer", fn.SSA.Pos(), why)
 		return
@@ -323,7 +379,7 @@ func c05Verify(c *Ctx, verify, adPay, epPay *Fn) {
 	cons := c.CallsInl(fn, Call("record.ConsumeTypedEnvelope"), 2)
 	var adCons, epCons *InlSite
 	for i := range cons {
-		if _, m := Match(Call("record.ConsumeTypedEnvelope", Field("Signature", ParamLike())), cons[i].X); m {
+		if _, m := Match(Call("record.ConsumeTypedEnvelope", Field("Signature", ParamLike())), cons[i].X); m && fieldOwner(strip(cons[i].X.Args[0])) != "Provider" {
 			adCons = &cons[i]
 		} else {
 			epCons = &cons[i]
@@ -612,6 +668,22 @@ func c05MainSeenWitness(c *Ctx, x *X) bool {
 						for _, f := range append(c.FactsAt(pred), edgeFact(c, pred, ph.Block())...) {
 							if _, m := Match(same, f.Cond); m && f.Val {
 								okEdge = true
+							}
+							// or the boolean result of a per-entry helper that is true only as that comparison
+							if h, _ := helperCall(f.Cond); h != nil && f.Val {
+								all, n := true, 0
+								for _, l := range c.Leaves(f.Cond, nil) {
+									if v, isConst := boolConst(l); isConst && !v {
+										continue
+									}
+									n++
+									if _, m := Match(same, l); !m {
+										all = false
+									}
+								}
+								if all && n > 0 {
+									okEdge = true
+								}
 							}
 						}
 						if !okEdge {
